@@ -4,6 +4,7 @@ import (
 	"encoding/json"
 	"fmt"
 	"os"
+	"runtime"
 	"testing"
 	"time"
 )
@@ -34,6 +35,11 @@ func TestLocal(t *testing.T) {
 		res := Execute(t, p)
 		if res.Nontrivial {
 			nontriv++
+		}
+		if os.Getenv("VERIF_L_TIME") != "" && i%50 == 0 {
+			var ms runtime.MemStats
+			runtime.ReadMemStats(&ms)
+			t.Logf("i=%d wall=%dms goroutines=%d heap=%dMB", i, res.WallMs, runtime.NumGoroutine(), ms.HeapAlloc>>20)
 		}
 		if os.Getenv("VERIF_L_HASH") != "" {
 			t.Logf("seed %d hash %s events %d steps %d checks %d", res.Seed, res.LogHash, res.Events, res.Steps, res.Checks)
